@@ -20,6 +20,8 @@ class DVSession(object):
         self.reg = PinvRegistry()
         hooks = make_hooks()
         hooks['linalg.pinv'] = self.reg.hook
+        hooks['linalg.inv'] = self.reg.hook
+        hooks['linalg.lstsq'] = self.reg.lstsq_hook
         self.models = Models(hooks=hooks)
         self.interp = Interp(repo, self.models, branch_oracle=oracle)
         self.models.bind(self.interp)
